@@ -123,6 +123,23 @@ func init() {
 				default:
 					img = newSrc(lr, kind, r)
 				}
+				// a YCbCr image assembled by hand (a decoder's frame with padded planes): luma and chroma strides
+				// need not be related the way image.NewYCbCr relates them
+				if y, ok := img.(*image.YCbCr); ok && it%3 == 0 && !y.Rect.Empty() {
+					padY, padC := lr.Intn(9), lr.Intn(9)
+					full := image.Rect(0, 0, y.Rect.Max.X, y.Rect.Max.Y)
+					// generous planes: any chroma width/height the ratio may need fits (over-allocation is legal)
+					n := &image.YCbCr{SubsampleRatio: y.SubsampleRatio, YStride: full.Dx() + padY, CStride: full.Dx() + 2 + padC, Rect: full}
+					n.Y = make([]byte, n.YStride*(full.Dy()+2))
+					n.Cb = make([]byte, n.CStride*(full.Dy()+2))
+					n.Cr = make([]byte, n.CStride*(full.Dy()+2))
+					lr.Read(n.Y)
+					lr.Read(n.Cb)
+					lr.Read(n.Cr)
+					if y.Rect.Min.X >= 0 && y.Rect.Min.Y >= 0 {
+						img = n.SubImage(y.Rect)
+					}
+				}
 				if extreme {
 					for _, p := range srcPix(img) {
 						v := []byte{0, 0xff, 0x80, 0x7f, 1, 0xfe}[lr.Intn(6)]
